@@ -133,86 +133,92 @@ def check_accessor(prog, check, f, role, summ, pid_rules=('C16.R1', 'C16.R2')):
 
 
 def check_window(prog, check, f):
-    """C16.R3 on the series accessor"""
-    fn = f.node
+    """C16.R3 on the series accessor: every path is evaluated symbolically (sfcv/window.py) and the window it returns is
+    compared with the one the property states for the assumptions the path took"""
+    from ..window import Evaluator, expected_window, lin_same, lin_text, TooManyPaths
     params = f.params()
-    subst = single_assign_subst(fn)
-    # the cutoff parameter: the one compared with None and re-assigned from a self attribute
-    cutoff = None
-    default_ok = False
-    for n in ast.walk(fn):
-        if isinstance(n, ast.If) and isinstance(n.test, ast.Compare) and isinstance(n.test.left, ast.Name) \
-                and n.test.left.id in params and len(n.test.ops) == 1 and isinstance(n.test.ops[0], ast.Is) \
-                and isinstance(n.test.comparators[0], ast.Constant) and n.test.comparators[0].value is None:
-            for st in n.body:
-                if isinstance(st, ast.Assign) and len(st.targets) == 1 and isinstance(st.targets[0], ast.Name) \
-                        and st.targets[0].id == n.test.left.id and isinstance(st.value, ast.Attribute) \
-                        and isinstance(st.value.value, ast.Name) and st.value.value.id == 'self':
-                    cutoff = n.test.left.id
-                    default_ok = True
-    if cutoff is None:
-        cands = [p for p in params if 'cutoff' in p.lower()]
-        cutoff = cands[0] if cands else None
-    check.ob('C16.R3', f.key + '::default-cutoff', default_ok, f.where,
-             'cutoff defaults to the model attribute when None' if default_ok else
-             'no `if cutoff is None: cutoff = self.<attr>` defaulting found',
-             'Model.TimeSeriesCutoff set, GetTimeSeries called without cutoff')
-    if cutoff is None:
+    cands = [p for p in params if 'cutoff' in p.lower()]
+    if not cands:
+        for n in ast.walk(f.node):
+            if isinstance(n, ast.Compare) and isinstance(n.left, ast.Name) and n.left.id in params and len(n.ops) == 1 and \
+                    isinstance(n.ops[0], (ast.Is, ast.IsNot)) and isinstance(n.comparators[0], ast.Constant) and n.comparators[0].value is None:
+                cands.append(n.left.id)
+    if not cands:
         raise AnalysisError('C16.R3: cannot identify the cutoff parameter of ' + f.qualname)
-    # slices of the stored series
-    nslices = 0
-    nocut = {k: v for k, v in subst.items() if k != cutoff}
-    for n in ast.walk(fn):
-        if isinstance(n, ast.Subscript) and isinstance(n.slice, ast.Slice) and cutoff in {
-                x.id for x in ast.walk(resolve_expr(n.slice, nocut)) if isinstance(x, ast.Name)}:
-            nslices += 1
-            sl = n.slice
-            lo_ok = sl.lower is None or lin_eq(linform(sl.lower, subst), {'': 0})
-            want = {cutoff: 1, '': 1}
-            up = linform(sl.upper, {k: v for k, v in subst.items() if k != cutoff}) if sl.upper is not None else None
-            up_ok = lin_eq(up, want)
-            step_ok = sl.step is None
-            check.ob('C16.R3', f.key + '::window', lo_ok and up_ok and step_ok,
-                     '%s:%d' % (f.module.rel, n.lineno),
-                     'slice is [%s:%s], required [0:%s+1]' % (unparse(sl.lower) or '0', lin_str(up), cutoff),
-                     'any cutoff: caller receives cutoff+1 points k=0..cutoff')
-    check.ob('C16.R3', f.key + '::window-present', nslices >= 1, f.where,
-             'a slice bounded by the cutoff exists' if nslices else 'the cutoff never bounds a slice: it is ignored',
-             'cutoff smaller than the horizon')
-    # time-zero suppression
-    found = 0
-    for n in ast.walk(fn):
-        if isinstance(n, ast.If) and any(isinstance(x, ast.Attribute) and 'upress' in x.attr for x in ast.walk(n.test)):
-            found += 1
-            removals = []
-            for st in n.body:
-                for x in ast.walk(st):
-                    if isinstance(x, ast.Call) and isinstance(x.func, ast.Attribute) and x.func.attr == 'pop':
-                        ok = len(x.args) == 1 and lin_eq(linform(x.args[0]), {'': 0})
-                        removals.append(('pop(%s)' % ', '.join(unparse(a) for a in x.args), ok))
-                    elif isinstance(x, ast.Delete):
-                        for t in x.targets:
-                            ok = isinstance(t, ast.Subscript) and not isinstance(t.slice, ast.Slice) and \
-                                lin_eq(linform(t.slice), {'': 0})
-                            removals.append(('del ' + unparse(t), ok))
-                    elif isinstance(x, ast.Assign) and isinstance(x.value, ast.Subscript) and \
-                            isinstance(x.value.slice, ast.Slice):
-                        sl = x.value.slice
-                        ok = sl.upper is None and sl.step is None and sl.lower is not None and \
-                            lin_eq(linform(sl.lower), {'': 1})
-                        removals.append((unparse(x), ok))
-            ok = len(removals) == 1 and removals[0][1]
-            check.ob('C16.R3', f.key + '::suppress-time-zero', ok, '%s:%d' % (f.module.rel, n.lineno),
-                     'suppression removes: %s (required: exactly the first element, once)' % (
-                         [r[0] for r in removals],),
-                     'suppression flag on: result must be points 1..cutoff')
-            # the branch is not inverted
-            neg = isinstance(n.test, ast.UnaryOp) and isinstance(n.test.op, ast.Not)
-            check.ob('C16.R3', f.key + '::suppress-polarity', not neg, '%s:%d' % (f.module.rel, n.lineno),
-                     'removal happens when the flag is set' if not neg else 'removal happens when the flag is NOT set',
-                     'suppression flag off: k=0 point must be kept')
-    check.ob('C16.R3', f.key + '::suppress-present', found >= 1, f.where,
-             'suppression branch present' if found else 'suppression flag is never consulted', 'suppression flag on')
+    cutoff = cands[0]
+    init = prog.resolve_method(f.cls, '__init__') if f.cls is not None else None
+    attrs = []
+    if init is not None:
+        for n in ast.walk(init.node):
+            if isinstance(n, ast.Attribute) and isinstance(n.ctx, ast.Store) and isinstance(n.value, ast.Name) and n.value.id == 'self':
+                attrs.append(n.attr)
+    dattr = [a for a in attrs if 'cutoff' in a.lower()]
+    sattr = [a for a in attrs if 'upress' in a.lower()]
+    if len(dattr) != 1 or len(sattr) != 1:
+        raise AnalysisError('C16.R3: cannot identify the default cutoff / suppression attributes (%s / %s)' % (dattr, sattr))
+    ev = Evaluator(f.node, cutoff, dattr[0], sattr[0])
+    try:
+        rets = ev.run(params)
+    except TooManyPaths:
+        raise AnalysisError('C16.R3: more than the bounded number of paths through ' + f.qualname)
+    bad = {'default-cutoff': [], 'window': [], 'suppress-time-zero': [], 'suppress-polarity': [], 'evaluable': []}
+
+    def say(assum):
+        names = {'C': cutoff, 'D': 'self.' + dattr[0], 'S': 'self.' + sattr[0]}
+        return ', '.join('%s %s' % (names[k], {'none': 'is None', 'some': 'is a number', 'zero': 'is 0', True: 'set', False: 'not set'}[v])
+                         for k, v in sorted(assum.items()))
+    for v, w, assum, line in rets:
+        where = '%s:%d' % (f.module.rel, line)
+        if w is None or w[0] == '?':
+            bad['evaluable'].append((where, 'the value returned when %s is not a window of the stored series the analysis can follow' % (say(assum) or 'always')))
+            continue
+        exp, why = expected_window(assum)
+        lo, hi = w
+        c = assum.get('C')
+        if c is not None:
+            want_hi = None
+            if c != 'none':
+                want_hi = {'C': 1, '': 1}
+                if not lin_same(hi, want_hi):
+                    bad['window'].append((where, 'with %s the points returned end at %s, required %s+1' % (say(assum), lin_text(hi).replace('C', cutoff), cutoff)))
+            elif assum.get('D') is not None:
+                want_hi = None if assum['D'] == 'none' else {'D': 1, '': 1}
+                if not lin_same(hi, want_hi):
+                    bad['default-cutoff'].append((where, 'with %s the points returned end at %s, required %s' % (
+                        say(assum), lin_text(hi).replace('D', 'self.' + dattr[0]), lin_text(want_hi).replace('D', 'self.' + dattr[0]))))
+            else:
+                bad['default-cutoff'].append((where, why))
+        else:
+            bad['evaluable'].append((where, why))
+        if 'S' in assum:
+            if assum['S'] and lo != 1:
+                bad['suppress-time-zero'].append((where, 'with %s the result starts at point %s, required 1' % (say(assum), lo)))
+            if not assum['S'] and lo != 0:
+                bad['suppress-polarity'].append((where, 'with %s the result starts at point %s, required 0' % (say(assum), lo)))
+        else:
+            bad['evaluable'].append((where, why or 'the path never consults the time-zero suppression flag'))
+    good = {'default-cutoff': 'without an argument the model default bounds the window (all points when that is None too)',
+            'window': 'with a cutoff the result is stored[..cutoff+1] on every path',
+            'suppress-time-zero': 'with the flag set every path drops exactly the k=0 point',
+            'suppress-polarity': 'with the flag not set every path keeps the k=0 point',
+            'evaluable': 'every returning path settles cutoff, default and flag and returns a window of the stored series'}
+    wit = {'default-cutoff': 'Model.TimeSeriesCutoff set, GetTimeSeries called without cutoff',
+           'window': 'any cutoff: caller receives cutoff+1 points k=0..cutoff',
+           'suppress-time-zero': 'suppression flag on: result must be points 1..cutoff',
+           'suppress-polarity': 'suppression flag off: k=0 point must be kept',
+           'evaluable': 'a call taking that path'}
+    for k in ('default-cutoff', 'window', 'suppress-time-zero', 'suppress-polarity', 'evaluable'):
+        b = bad[k]
+        check.ob('C16.R3', f.key + '::' + k, not b, b[0][0] if b else f.where,
+                 good[k] if not b else '; '.join(sorted({x[1] for x in b}))[:600], wit[k])
+    bounded = [r for r in rets if r[1] is not None and r[1][1] is not None and r[1][0] != '?']
+    check.ob('C16.R3', f.key + '::window-present', bool(bounded), f.where,
+             '%d of %d returning paths are bounded by a cutoff' % (len(bounded), len(rets)) if bounded else
+             'the cutoff never bounds the result: it is ignored', 'cutoff smaller than the horizon')
+    consulted = [r for r in rets if 'S' in r[2]]
+    check.ob('C16.R3', f.key + '::suppress-present', bool(consulted), f.where,
+             'the suppression flag is consulted' if consulted else 'suppression flag is never consulted', 'suppression flag on')
+    check.note('C16.R3 %s: %d returning paths evaluated symbolically' % (f.qualname, len(rets)))
 
 
 def run(prog, check):
